@@ -232,12 +232,7 @@ type ImplDB struct {
 	d  database.Database
 }
 
-// genBigInts: may genOverflow store integers beyond 2^53? (true for databases driven in-process, false when
-// their contents go over the wire: see newRig)
-var genBigInts = true
-
 func newImplDB(ts TxnSchema) *ImplDB {
-	genBigInts = true
 	db, err := BuildDB(ts.Spec, nil)
 	if err != nil {
 		panic(err)
@@ -1444,13 +1439,6 @@ func (g *txnGen) genOverflow() (OperationJ, bool) {
 	minInt := int64(math.MinInt64) // -2^63: the one integer whose negation is out of range (exact in float64)
 	sub := rng.Intn(9)
 	where := g.genWhere(t)
-	if !genBigInts {
-		// only what is refused from a row that holds 0 (nothing beyond 2^53 is ever stored), or a change of sign
-		sub = []int{1, 2, 4, 8, 6}[rng.Intn(5)]
-		if sub != 6 {
-			where = []WCondJ{{Col: "n", Fn: "==", Val: VA(AI(0))}}
-		}
-	}
 	switch sub {
 	case 4:
 		ms = []MutationJ{{Col: "n", Mutator: "-=", Val: VA(AI(minInt))}}
